@@ -8,8 +8,15 @@ import check
 from checks_registry import REGISTRY
 rc = 0
 for pid, cfg in sorted(REGISTRY.items()):
-    b = check.build(pid, cfg, bool(cfg.get("race")))
-    print(pid, "built" if b else "BUILD FAILED")
-    if not b:
-        rc = 1
+    race = bool(cfg.get("race"))
+    keys = [(cfg["pkg"], race)]
+    for t in cfg["tests"]:
+        k = (t.get("pkg", cfg["pkg"]), bool(t.get("race", race)))
+        if k not in keys:
+            keys.append(k)
+    for pkg, r in keys:
+        b = check.build(pid, cfg, r, pkg)
+        print(pid, pkg, "race" if r else "", "built" if b else "BUILD FAILED")
+        if not b:
+            rc = 1
 sys.exit(rc)
